@@ -198,7 +198,8 @@ def mon_reactions(ctx, conn):
                 else:
                     A = Allowed(conn=[PROTOCOL])
             elif s0 == CPEER:
-                A = Allowed(stream=[STREAM_CLOSED]) if typ in (0, 1) else Allowed(ok=True, stream=[STREAM_CLOSED])
+                # HEADERS re-using the identifier of a closed stream is also "an unexpected stream identifier" (5.1.1)
+                A = Allowed(stream=[STREAM_CLOSED], conn=[PROTOCOL] if typ == 1 else []) if typ in (0, 1) else Allowed(ok=True, stream=[STREAM_CLOSED])
             elif s0 == COUR:
                 A = Allowed(ok=True, stream=[STREAM_CLOSED])
                 A.conn = set()      # never a connection error (RFC 7540 5.1, 5.4.2)
